@@ -327,8 +327,8 @@ example :
 state**: after any sequence of API calls, `async_lock` (first poll: queued behind the owner `w` of the key) followed by the drop of
 that future leaves the *whole* API state — entries, values, queues (the waiter is out of the FIFO again), handles, every stream's
 items and ready queue, suspended calls — exactly as it was, up to the recency refresh of the lookup (`touch`; identity for hash map
-and pool). Hypotheses: the handle id is unused (`hs h = none`, and no suspended call is registered under it — there is no
-`SuspOk` invariant yet that would derive the latter from the former). -/
+and pool). Hypotheses: the handle id is unused — `hs h = none`, and no suspended call is registered under it (a separate condition of the
+protocol's id discipline: while a call is suspended in its callback its handle is not in `hs` yet). -/
 theorem C06_wait_cancel_call_erased (kind : Kind) (cs : List Call) (h k h0 : Nat) (m : Entry) (w : Nat) :
     let a := cs.foldl (fun a c => (a.exec c).1) (Api.init kind)
     a.s.hs h = none → a.susp.lookup h = none → a.s.ent k = some m → m.holder = some w →
